@@ -921,6 +921,10 @@ func genC10(b *builder) {
 			sc.Foreign = append(sc.Foreign, vnet.ForeignPort{Proto: "udp", Port: ap.Port()})
 		}
 	}
+	if r.Intn(8) == 0 {
+		// a transient receive error in the middle of the stream
+		sc.Faults = append(sc.Faults, vnet.Fault{Kind: "udpread", Nth: r.Intn(6), Errno: pick(r, "ENOBUFS", "ECONNREFUSED", "EPERM")})
+	}
 	cycles := 1 + r.Intn(3)
 	tk := engine.Task{}
 	for i := 0; i < cycles; i++ {
